@@ -46,6 +46,16 @@ adapters had no C14 monitor -> "adapter woke its task although no child waker wa
 in the end: `c14_fu_wakes_after_group_retired` is caught in `FuturesUnordered` itself). `c11_mu_push_drains_older_groups` was
 first INCONCLUSIVE (exit 2: `mu_push_12` ran out of its 8 GB cap on the changed code; an inconclusive run is never reported
 as a pass); with a 24 GB cap the violation is found and replayed. The remaining eleven were caught by the checks as they stood.
+
+Round 7 (10 further changes, 63 in all; three sub-agents independently arrived at the same edit - the cursor reset after
+re-adding the emptied last group of `FuturesUnordered` - for C02, C01 and C13). Predicted misses, extended before evaluation:
+`c13_fu_readded_group_keeps_cursor`: `FuturesUnordered` had no C13 monitor across groups -> "Pending although a woken child of
+some group was not polled by this call" in `fu.rs`, `fu_cur_12_c1` added to C13's quick list;
+`c06_merge_ended_stream_leaked`: the drop-count monitor of an ended merge source carried only a C05 label (monitors are compiled
+per property) -> the same obligation under a C06 label; `c09_tbu_future_error_discards_upstream`: "upstream discarded although it
+has not ended" was a C10 monitor only -> C09 label (the next step's pre-state cannot see it: a gone upstream *is* an ended upstream
+there); `c15_fu_with_capacity_zero_group`: `ctor_fu_0/2` now also push one future (a panic inside /repo is a violation) instead
+of only inspecting the group list.
 """
 s = open(os.path.join(V, "DESIGN.md")).read()
 a = s.index("## 9. Seeded changes")
